@@ -206,27 +206,57 @@ func buildQuery(o *Obligation, negate bool) string {
 }
 
 func discharge(obls []*Obligation, cfg runCfg) {
-	sem := make(chan struct{}, cfg.jobs)
-	var wg sync.WaitGroup
+	// pass 1: one instance of every named obligation; pass 2: the remaining instances. An obligation whose first
+	// instance could not be discharged is already reported: its other instances get a short budget only.
+	var first, rest []*Obligation
+	seen := map[string]bool{}
 	for _, o := range obls {
-		if o.Goal.S == "true" && o.Kind != "cover" {
-			o.Res = solveResult{Verdict: "unsat", Solver: "syntactic"}
-			continue
+		if !seen[o.Name] {
+			seen[o.Name] = true
+			first = append(first, o)
+		} else {
+			rest = append(rest, o)
 		}
-		wg.Add(1)
-		sem <- struct{}{}
-		go func(o *Obligation) {
-			defer wg.Done()
-			defer func() { <-sem }()
-			q := buildQuery(o, true)
-			to := cfg.timeoutMs
-			if cfg.short[o.Name] && to > 10000 {
-				to = 10000 // listed as a known finding: not expected to discharge, do not wait for the full budget
-			}
-			o.Res = solve(q, to, cfg.allSolver, nil, o.Kind == "cover")
-		}(o)
 	}
-	wg.Wait()
+	failed := map[string]bool{}
+	var mu sync.Mutex
+	run := func(batch []*Obligation) {
+		sem := make(chan struct{}, cfg.jobs)
+		var wg sync.WaitGroup
+		for _, o := range batch {
+			if o.Goal.S == "true" && o.Kind != "cover" {
+				o.Res = solveResult{Verdict: "unsat", Solver: "syntactic"}
+				continue
+			}
+			wg.Add(1)
+			sem <- struct{}{}
+			go func(o *Obligation) {
+				defer wg.Done()
+				defer func() { <-sem }()
+				q := buildQuery(o, true)
+				to := cfg.timeoutMs
+				mu.Lock()
+				already := failed[o.Name]
+				mu.Unlock()
+				if (cfg.short[o.Name] || already) && to > 10000 {
+					to = 10000 // a known finding, or already failing in another instance: do not wait for the full budget
+				}
+				o.Res = solve(q, to, cfg.allSolver, nil, o.Kind == "cover")
+				ok := o.Res.Verdict == "unsat"
+				if o.Kind == "cover" {
+					ok = true
+				}
+				if !ok {
+					mu.Lock()
+					failed[o.Name] = true
+					mu.Unlock()
+				}
+			}(o)
+		}
+		wg.Wait()
+	}
+	run(first)
+	run(rest)
 }
 
 func cmdVerify(keys []string, tag string, timeoutMs int, verbose bool) int {
